@@ -60,7 +60,7 @@ def check(ctx, tier):
     tk.purity("C13.e", fs, "packing and reading do not modify the caller's arrays or the packed data", content_only=True)
     W.report(ctx, tk, "C13.f", fs + [cls.methods["__init__"]])
     from .. import hazards as _hz, scopes as _sc
-    _hz.generic(ctx, tk, "C13.z", _sc.scope(tk, "C13", depth=2))
+    _hz.generic(ctx, tk, "C13.z", _sc.scope(tk, "C13", depth=1))
     return {}
 
 
